@@ -281,11 +281,13 @@ def moduloD (a b : D) : Option D :=
 
 def digitChar (d : Nat) : Char := Char.ofNat (48 + d)
 
-/-- decimal digits of a natural number, no leading zeros, `"0"` for 0 -/
-def natDigits (n : Nat) : List Char :=
-  if n < 10 then [digitChar n] else natDigits (n / 10) ++ [digitChar (n % 10)]
-termination_by n
-decreasing_by omega
+/-- decimal digits of a natural number, no leading zeros, `"0"` for 0 (fuel = structural recursion,
+    so that the kernel can evaluate it) -/
+def natDigitsAux : Nat → Nat → List Char
+  | 0, _ => []
+  | f + 1, n => if n < 10 then [digitChar n] else natDigitsAux f (n / 10) ++ [digitChar (n % 10)]
+
+def natDigits (n : Nat) : List Char := natDigitsAux (n + 1) n
 
 /-- exactly `k` digits (most significant first) of `n % 10^k` -/
 def fracDigits : Nat → Nat → List Char
